@@ -196,8 +196,36 @@ static inline _Bool spd_registered(struct map_pair_U_U_vec_idl_distancep before,
                                     'smt::idl_theory::idl_distance': ['b', 'from', 'to', 'dist'], 'smt::rational': ['num', 'den'], 'smt::lin': ['vars', 'known_term']},
                    timeout=3000, mem_gb=24, mem_est=4, force_types=['std::vector<std::vector<long>>'],
                    bounded='%d time points, |dist| <= 64, <= 1 pair with one registered constraint before the call' % d['XT_NTP']))
+    out.extend(rdl_jobs(tier))
     return out
 
 
-# what the evidence file says is NOT decided by this module, and what it assumes
-INFO = {'not_under_contract': ['rdl_theory (relations and queries over inf_rational): same code shape, NOT verified; its bounds/distance/equates were seen to share defects repaired in idl_theory', 'new_distance(from, to, min, max)', 'arithmetic on the inf() sentinel inside the relation functions (finite matrices only there)', 'core.cpp / item.cpp routing of time-point expressions'], 'assumptions': ['the literal returned by new_distance for an open constraint means its constraint in every combined model: enforced by propagate (C10), definitional in these jobs']}
+def rdl_jobs(tier):
+    """rdl_theory::bounds(lin): the interval must be the variable-level range of x (or of x - y), scaled by the coefficient - swapped
+    for a negative one - and shifted by the constant; every difference expression c*x + k, c*(x - y) + k is served, anything else raises
+    invalid_argument.  Structural statement only (no ghost valuation: the distances are inf_rationals with an infinitesimal part)."""
+    TUS_R = ['smt/arith/dl/rdl_theory.cpp', 'smt/arith/lin.cpp', 'smt/arith/rational.cpp', '/verif/stubs/tu/inf_rational.cpp']
+    d = {'I_BITS': 8, 'WIDE_BITS': 32, 'U_BITS': 8, 'SPEC_W': 2, 'LIN_MAX': 2, 'XT_NTP': 3}
+    ABS_R = {'smt::sat_core': [], 'smt::theory': ['sat'], 'smt::rdl_theory': ['_dists'], 'smt::lit': ['x']}
+    HB = 'void xt_harness(void)\n{\n  xt_init_globals();\n  struct smt_rdl_theory th; struct smt_lin *l;\n  smt_rdl_theory_bounds__lin(&th, l);\n}\n'
+    FORM = 'spr_form_of(*l).shape'
+    cb = Contract(requires=['__CPROVER_is_fresh(l, sizeof(*l))', '__exc == 0', 'lin_shape(*l) && spr_lin_keys_ok(*l)', 'in_range_lin(*l) && lin_nonzero(*l)', 'wf_lin(*l)',
+                            'spr_D_ok(self->_dists)', 'sp_lin_rec(100, *l) && spr_rec(self->_dists)'],
+                  ensures=[('only_invalid_argument', '__exc == 0 || __exc == EXC_invalid_argument'),
+                           ('serves_exactly_the_difference_expressions', '(__exc != 0) == (%s == 3)' % FORM),
+                           ('agrees_with_the_variable_level_distances', '__exc != 0 || spr_bounds_agree(self->_dists, *l, %s.first, %s.second)' % (R, R)),
+                           ('WITNESS_two_variable_form_with_negative_coefficient_is_reachable', '!(__exc == 0 && %s == 2 && spr_form_of(*l).c.num < 0)' % FORM)],
+                  assigns='__exc')
+    return [Job('rdl.bounds', 'smt_rdl_theory_bounds__lin', tus=TUS_R, contract=cb, defines=d, unwind=6, model_unwind=12, spec_headers=['rdl_spec.h'], exceptions=True,
+                caps={'map': 4, 'vec_vec_inf_rational': 3, 'vec_inf_rational': 3, 'vec_lit': 2}, abstract_fields=ABS_R, harness=HB, timeout=3000, mem_gb=24, mem_est=6,
+                replay={'driver': 'rdl', 'stanza': '''  const int n = XT_NTP; sat_core sat; rdl_theory *th = build_rdl(sat, n); lin l = mk_lin(100);
+  r_bounds want = rbounds_of(*th, l); std::string why;
+  try {
+    auto [lb, ub] = th->bounds(l);
+    if (want.shape == 3) { ok = false; why += " accepted although it is not a difference expression;"; }
+    else if (!same(lb, want.lo) || !same(ub, want.hi)) { ok = false; why += " the distances give [" + show(want.lo) + ", " + show(want.hi) + "];"; }
+    observed = "bounds(" + show(l) + ") = [" + show(lb) + ", " + show(ub) + "]" + why;
+  } catch (const std::invalid_argument &e) { if (want.shape != 3) ok = false; observed = "bounds(" + show(l) + ") throws invalid_argument"; }
+  required = "the interval derived from the variable-level distances (scaled by the coefficient, swapped when it is negative, shifted by the constant)";
+'''},
+                bounded='expressions with <= 2 terms over 3 time points, |coefficients| < 2^2, distances small canonical inf_rationals or +inf')]
